@@ -47,10 +47,12 @@ import (
 	"os"
 	"testing"
 	"time"
+
+	"github.com/pion/turn/v5/internal/vrt"
 )
 
 func TestVerifReplay(t *testing.T) {
-	if err := vLoadReplay(os.Getenv("VERIF_REPLAY")); err != nil {
+	if err := vrt.LoadReplay(os.Getenv("VERIF_REPLAY")); err != nil {
 		t.Fatal(err)
 	}
 	done := make(chan struct{})
@@ -72,12 +74,12 @@ func TestVerifReplay(t *testing.T) {
 	case <-time.After(8 * time.Second):
 		vFail("replay.timeout (blocked or spinning)")
 	}
-	vMu.Lock()
-	defer vMu.Unlock()
-	for _, f := range vFailures {
+	vrt.Mu.Lock()
+	defer vrt.Mu.Unlock()
+	for _, f := range vrt.Failures {
 		fmt.Printf("VERIF-FAIL %s\n", f)
 	}
-	fmt.Printf("VERIF-REPLAY-DONE failures=%d\n", len(vFailures))
+	fmt.Printf("VERIF-REPLAY-DONE failures=%d\n", len(vrt.Failures))
 }
 `
 
@@ -97,22 +99,34 @@ func replayNative(rf *replayFile, path string, extra map[string]string) (fails [
 	}
 	defer os.RemoveAll(work)
 	replace := map[string]string{}
-	src := filepath.Join(verifDir, "harness", dir)
-	ents, _ := os.ReadDir(src)
-	for _, en := range ents {
-		if strings.HasSuffix(en.Name(), ".go") {
-			replace[filepath.Join(repoDir, repoPkg, en.Name())] = filepath.Join(src, en.Name())
-		}
-	}
 	tmpl, err := os.ReadFile(filepath.Join(verifDir, "harness", "api.go.tmpl"))
 	if err != nil {
 		return nil, "", err
 	}
-	api := filepath.Join(work, "zz_verif_api.go")
-	os.WriteFile(api, []byte(strings.Replace(string(tmpl), "package PKGNAME", "package "+pkg, 1)), 0o644)
-	replace[filepath.Join(repoDir, repoPkg, "zz_verif_api.go")] = api
+	// all harness packages take part (harnesses of one package use the exported fakes of another)
+	hroot := filepath.Join(verifDir, "harness")
+	filepath.Walk(hroot, func(p string, info os.FileInfo, err error) error {
+		if err != nil || info.IsDir() || !strings.HasSuffix(p, ".go") {
+			return nil
+		}
+		rel, _ := filepath.Rel(hroot, filepath.Dir(p))
+		rp := rel
+		if rel == "root" {
+			rp = "."
+		}
+		replace[filepath.Join(repoDir, rp, filepath.Base(p))] = p
+		apiVirt := filepath.Join(repoDir, rp, "zz_verif_api.go")
+		if _, ok := replace[apiVirt]; !ok {
+			b, _ := os.ReadFile(p)
+			api := filepath.Join(work, "api_"+strings.ReplaceAll(rel, "/", "_")+".go")
+			os.WriteFile(api, []byte(strings.Replace(string(tmpl), "package PKGNAME", "package "+packageClause(b), 1)), 0o644)
+			replace[apiVirt] = api
+		}
+		return nil
+	})
+	replace[filepath.Join(repoDir, "internal", "vrt", "vrt.go")] = filepath.Join(hroot, "vrt.go.tmpl")
 	tf := filepath.Join(work, "zz_verif_replay_test.go")
-	t := strings.Replace(replayTestTmpl, "PKGNAME", pkg, 1)
+	t := strings.Replace(replayTestTmpl, "package PKGNAME", "package "+pkg, 1)
 	t = strings.Replace(t, "HARNESS()", rf.Harness+"()", 1)
 	os.WriteFile(tf, []byte(t), 0o644)
 	replace[filepath.Join(repoDir, repoPkg, "zz_verif_replay_test.go")] = tf
